@@ -260,6 +260,8 @@ def i2b(x, w, endian):
             return T("raise", ("OverflowError",), BYTES)
     if w == 1 and isinstance(endian, str):
         endian = "big"  # a single byte has no byte order
+    if isinstance(x, T) and x.op == "ite" and isinstance(w, int) and all(isinstance(a_, int) and not isinstance(a_, bool) for a_ in x.args[1:]):
+        return ite(x.args[0], i2b(int(x.args[1]), w, endian), i2b(int(x.args[2]), w, endian))  # a constant chosen by a condition
     if isinstance(x, T) and x.op == "b2i" and isinstance(w, int):
         # i2b(b2i(y, e), len(y), e) == y
         y, e = x.args
@@ -969,6 +971,23 @@ def unhex(x):
             return T("raise", ("ValueError",), BYTES)
     if isinstance(x, T) and x.op == "hex":
         return x.args[0]
+    if isinstance(x, T) and x.op in ("scat", "fmt"):
+        # bytes.fromhex(f"{a:02x}{b:064x}..."): literal pairs of hex digits and zero-padded fixed-width hexadecimal numbers are
+        # the bytes and the big-endian integers they spell -- for values that fit their width (0 <= v < 16^width), the domain on
+        # which `v.to_bytes(width // 2, "big")` is defined; a part padded otherwise (`{y:64x}` pads with spaces) stays as written
+        import re as _re
+        parts, ok = [], True
+        for q in (x.args if x.op == "scat" else (x,)):
+            if isinstance(q, str) and len(q) % 2 == 0 and _re.fullmatch(r"[0-9a-fA-F]*", q):
+                parts.append(bytes.fromhex(q))
+            elif isinstance(q, T) and q.op == "fmt" and isinstance(q.args[1], str) and _re.fullmatch(r"0(\d+)x", q.args[1]) and int(q.args[1][1:-1]) % 2 == 0 and \
+                    q.args[2] == -1 and tyof(_unfz1(q.args[0])) in (INT, BOOL):
+                parts.append(i2b(_unfz1(q.args[0]), int(q.args[1][1:-1]) // 2, "big"))
+            else:
+                ok = False
+                break
+        if ok and parts:
+            return cat(parts)
     return T("unhex", (x,), BYTES)
 
 
